@@ -123,6 +123,7 @@ static RPBlockAccess w8(uint32_t a, size_t n, const uint8_t *b) { return b_write
 static BlockAllocator BA;
 static void setup(RegP *p, int tr, int mem16, size_t blocksize, Arr *a)
 {
+    memset(p, 0xA5, sizeof *p);          /* initialisation must not rely on a zeroed instance */
     regp_init(p);
     if (mem16) regp_use_memory16(p, r16, w16); else regp_use_memory8(p, r8, w8);
     B.ws = mem16 ? 2 : 1;
